@@ -7,8 +7,10 @@ block with the same hash" (C18). The model is tied to chain/nom/account_block.go
 encoding/json by the `json-mar` / `json-unm` / `jsonm-mar` / `jsonm-unm` lines of the `codec` stream; the member
 names, their order and their Go types are the regenerated facts `Gen.abJsonMembers` / `Gen.momJsonMembers` /
 `Gen.hashHeightJsonMembers` / `Gen.accountHeaderJsonMembers`, pinned below.
-NOT a theorem here: order-irrelevance for arbitrary objects (`json_member_order_irrelevant`): the stream checks it
-on the real code (shuffled members, model-free monitor + model replay); the api.AccountBlock wrapper.
+NOT a theorem here: order-irrelevance for arbitrary permutations / arbitrary objects (only the reversed order of the
+marshalled members, `json_member_order_irrelevant_partial`): the stream checks shuffles on the real code (model-free
+monitor + model replay); the api.AccountBlock wrapper (token / confirmationDetail / pairedAccountBlock) is not
+modelled beyond "these names match no tag" (`json_unknown_members_ignored` + the example next to it).
 -/
 namespace ZV.C13Json
 open ZV ZV.Codec ZV.JsonRpc ZV.CodecJson
@@ -227,6 +229,25 @@ theorem json_missing_member_default (L : Leaves) (hL : L.WF) (body : ABody) (ds 
         Bool.false_eq_true]
        ab_simp
        simp [finish, hn, stringToBigInt_showAmount, zeroField, bodyZero, h0])
+
+/-- `json_member_order_irrelevant_partial`: the marshalled block with its members in REVERSED order (so the relative
+    order of every pair of members is flipped, descendantBlocks before / after every other member) parses to the
+    same block. PARTIAL: one permutation of the marshalled members, not every permutation of every object without
+    repeated folded names (missing: pairwise commutation of the 22 member setters lifted to `List.Perm`, and the
+    statement modulo WHICH error is reported, since the first error in document order changes with the order);
+    arbitrary shuffles are replayed against the model and checked model-free on the `codec` stream
+    (`jm-shuffle`, `jm-shuffle-desc`, `jmm-shuffle`). -/
+theorem json_member_order_irrelevant_partial (L : Leaves) (hL : L.WF) (body : ABody) (ds : List Block)
+    (hb : BlockJ ⟨body, ds⟩) :
+    unmarshalBlock L (reverseMembers (marshalBlock L ⟨body, ds⟩)) = .ok ⟨body, ds⟩ := by
+  rw [BlockJ] at hb
+  obtain ⟨w, wds⟩ := hb
+  have ih := blocks_rt L hL ds wds
+  have hn : nonceUnmarshalText (hexChars body.nonce) = some body.nonce := by
+    simp [nonceUnmarshalText, ofHexChars_hexChars body.nonce w.nonce.1, w.nonce.2]
+  simp only [marshalBlock, reverseMembers, List.reverse_cons, List.reverse_nil, List.nil_append, List.cons_append]
+  ab_simp
+  simp [finish, hn, stringToBigInt_showAmount]
 
 /-- … and a missing `nonce` is an ERROR of `UnmarshalJSON` ("invalid nonce length": the empty string decodes to 0
     bytes), whatever the other members are: a block object without nonce never parses -/
